@@ -9,6 +9,10 @@ CHECKS = {
     text="Kernel-checked theorems over the Lean model of dds_hash for ALL values (any nesting/size): totality (structural recursion), only coded errors (coded), exact characterisation of collisions (collide_iff: equal signature iff equal canonical form), injectivity on scalars, the documented identifications; the full statement is false on the code (5 structural collision families) - negation witnesses are proved and replayed on the real code as known findings. Model tied to the code by byte-exact correspondence on ~5000 (quick) values incl. boundary cases.",
     note="SHA-256 idealisation (distinct symbolic digests => distinct bytes; user strings never spell a digest - the one family where they do is known finding C05-KF5); str universe = Unicode scalar strings; repr/str of dates/paths passed in; correspondence is sampled",
     technique="Lean 4 proof (mutual structural induction, factorisation through a canonical form) + byte-exact differential correspondence with dds.fun_args.dds_hash"),
+ "C13": dict(
+    text="Kernel-checked theorems over the Lean model of get_arg_ctx / get_arg_ctx_ast / _build_return_sig for ALL parameter lists, spellings and values: the argument context is a function of the binding only (spelling_invariant), a call seen in source with literal arguments gets the context of the direct call (source_eq_direct), equal contexts imply equal bindings up to the C05 canonical form (binding_injective), and the argument hashes are recoverable from the signature (sig_injective, through injectivity of the XOR-set algebra). Byte-exact correspondence of both routes and of the end-to-end signature of kept leaf functions; implementation-only oracle over all spellings x both routes.",
+    note="plain (positional-or-keyword) parameters only; literals = ast.Constant; SHA-256 idealisation; C05 known collision families apply to argument values; correspondence is sampled",
+    technique="Lean 4 proof (induction over parameter lists, permutation/injectivity lemmas of the symbolic XOR algebra) + byte-exact differential correspondence with dds.fun_args and end-to-end signatures"),
 }
 NOT_YET = "check not built yet in this round (work in progress, see DESIGN.md §10)"
 
